@@ -58,20 +58,31 @@ def r15a(ctx: Context) -> None:
         prog.method("pymarkdown.coalesce.coalesce_processor.CoalesceProcessor", "coalesce_text_blocks").qualname,
         prog.method("pymarkdown.inline.inline_processor.InlineProcessor", "parse_inline").qualname,
     }
+    def contained(func: FuncInfo, node: ast.AST, depth: int = 0) -> Tuple[bool, str]:
+        """inside try/except Exception -> BadTokenizationError here, or in every caller (of the tokenizer) up the chain"""
+        handler = catching_handler(func.node, node, is_catch_all)
+        if handler is not None:
+            ok, why = handler_always_raises(handler, {"BadTokenizationError"})
+            return (True, "converted to BadTokenizationError") if ok else (False, f"the handler around the parser pass does not always raise BadTokenizationError: {why}")
+        callers = [s for s in prog.callers.get(func.qualname, []) if s.caller.cls == tm]
+        if not callers or depth > 3 or not func.name.startswith("_"):
+            return False, "a parser pass is invoked outside try/except Exception: an internal parser error escapes unconverted"
+        for caller_site in callers:
+            ok, why = contained(caller_site.caller, caller_site.node, depth + 1)
+            if not ok:
+                return False, why
+        return True, f"converted to BadTokenizationError by the caller(s) of {func.short}"
+
     for func in tm.methods.values():
         for site in prog.sites_in(func):
             if not any(t.qualname in passes for t in site.targets):
                 continue
             key = func_key(func, site.node)
-            handler = catching_handler(func.node, site.node, is_catch_all)
-            if handler is None:
-                rule.fail(key, site.where, "a parser pass is invoked outside try/except Exception: an internal parser error escapes unconverted")
-                continue
-            ok, why = handler_always_raises(handler, {"BadTokenizationError"})
+            ok, why = contained(func, site.node)
             if ok:
-                rule.ok(key, "converted to BadTokenizationError")
+                rule.ok(key, why)
             else:
-                rule.fail(key, site.where, f"the handler around the parser pass does not always raise BadTokenizationError: {why}")
+                rule.fail(key, site.where, why)
     # every public entry reaches the passes through such a function only
     for name in ("transform", "transform_from_provider"):
         entry = prog.method(TM, name)
